@@ -115,3 +115,55 @@ func VerifC09Rounds() {
 	}
 	zz.Reach("rounds-done")
 }
+
+// c09GateTask: a task that keeps its worker busy until the gate is opened.
+type c09GateTask struct {
+	gate *sync.Mutex
+	runs int
+}
+
+func (t *c09GateTask) Run(tid uint64) error {
+	t.gate.Lock()
+	t.runs++
+	t.gate.Unlock()
+	return nil
+}
+func (t *c09GateTask) HandleError(e error) {}
+
+// VerifC09ResizeSeq: "changing the worker count converges to the requested number", for a SEQUENCE of requests: the pool
+// has a workers of which a symbolic number is kept busy by gated tasks; SetWorkerCount(b) and SetWorkerCount(c) (non-waiting
+// form, b and c symbolic) follow each other while the gate is opened by another goroutine (so that reductions may still be
+// pending when the next request arrives); once everything has settled the pool has c workers, and with c > 0 every
+// accepted task ran exactly once.
+func VerifC09ResizeSeq() {
+	maxw := zz.Param("MAXW", 2)
+	a := 1 + zz.Choice("a", maxw)
+	b := zz.Choice("b", maxw+1)
+	c := zz.Choice("c", maxw+1)
+	busy := zz.Choice("busy", a+1)
+	tp := NewThreadPool()
+	zz.Schedule(zz.Param("P", 1))
+	tp.SetWorkerCount(a, true)
+	gate := &sync.Mutex{}
+	gate.Lock()
+	tasks := make([]*c09GateTask, busy)
+	for i := range tasks {
+		tasks[i] = &c09GateTask{gate: gate}
+		tp.AddTask(tasks[i])
+	}
+	zz.Quiesce() // the workers have taken the tasks and wait at the gate
+	go func() { gate.Unlock() }()
+	tp.SetWorkerCount(b, false)
+	tp.SetWorkerCount(c, false)
+	zz.Quiesce()
+	zz.Reach("settled")
+	zz.Assert(tp.WorkerCount() == c, "C09.worker-count-converges")
+	if c > 0 {
+		for _, t := range tasks {
+			gate.Lock()
+			n := t.runs
+			gate.Unlock()
+			zz.Assert(n == 1, "C09.task-survives-resize")
+		}
+	}
+}
